@@ -1,8 +1,8 @@
 package exec
 
 import (
-	"go/token"
 	"fmt"
+	"go/token"
 	"go/types"
 	"os"
 	"path/filepath"
